@@ -12,7 +12,7 @@ def run(ctx):
     ctx.proof_side(DIRS, "Properties/C14.v", extra_trusted=[
         "hand-written models of ds/reactive derived values (C14_Derived/Model.v: DV, SN, CT, SS, EV, WG, WGI, LK), tied to the code by the lockstep correspondence only",
         "lower layer taken as an interface (property C13): a subscriber receives every change exactly once, in order, synchronously inside the writer's call; one model step = one API call run to completion",
-        "interleaving models (WaitGroup Add/Done atomic steps, DerivedVariable writer steps, SortedSet lock skeleton) are hand abstractions of the Go code; the free-running runs and the directed schedules exercise the real code",
+        "interleaving models (WaitGroup Add/Done atomic steps, DerivedVariable2 writer steps DVI, SortedSet lock skeleton) are hand abstractions of the Go code; the free-running runs and the directed schedules exercise the real code; DVI is additionally tied to the code by the forced schedules of `sched` (final state per schedule)",
         "hook a2d37bb (tag verif): WaitGroup.Add yields between the duplicate check and the counter correction",
     ])
     if thorough:
@@ -21,13 +21,16 @@ def run(ctx):
             ctx.corr(hx, ["lock", "--n", "150", "--len", "40"], cases_name="cases%d.v" % k)
         ctx.seed -= 4000
         ctx.corr(hx, ["conc", "--runs", "1500"], cases_name="conc.v", timeout=1500)
+        ctx.corr(hx, ["sched", "--n", "4000"], cases_name="sched.v")
     else:
         ctx.corr(hx, ["lock", "--n", "70", "--len", "30"])
         ctx.corr(hx, ["conc", "--runs", "150"], cases_name="conc.v")
+        ctx.corr(hx, ["sched", "--n", "400"], cases_name="sched.v")
     ctx.assumptions += [
         "model assumption (interface of C13): callbacks of a Variable/Set run synchronously, once per change, in registration order",
         "guards of the theorems: the derived value is not written directly (it is itself a Variable/Set); an unsubscribe function of DerivedSet.InheritFrom is called at most once; compute functions do not depend on the current value; list arguments of set operations are duplicate-free (they are ds.Set values); EvictionState slots are modelled as unbounded N (Evict(max) of the slot type is a directed regression case, fix 2c4b512)",
         "concurrency: free-running runs with <= 4 goroutines and a quiescence barrier, compared with the defining function in Go; every run under a 20 s watchdog; directed schedules for the repaired D14b (blocking subscriber) and D14c (hook)",
+        "forced schedules (sched): one held writer per boundary x one or two further writers, each writer performs one Set; a writer counts as blocked when its goroutine is parked on a lock (runtime wait state); DerivedVariable3/4 and inheriting inputs are judged in Go only (the interleaving model DVI has two inputs)",
     ]
 
 
